@@ -159,6 +159,12 @@ func c01HistRun(c sigCase) (V, Verdict) {
 	return tr.V(), v
 }
 
+// c01RetriesWitness: found by the seeded generator (class create-refused), kept as a
+// fixed case; see c01Corpus.
+func c01RetriesWitness() []sigOp {
+	return c01RetriesOps
+}
+
 // exchange appends a full offer/answer exchange offered by pc a
 func c01Exchange(ops []sigOp, a int, pranswer bool) []sigOp {
 	b := 1 - a
@@ -235,6 +241,9 @@ func sigGenHistory(r *Rand, maxLen int, muts []int, single bool) sigCase {
 			if isSet && r.Chance(1, 10) {
 				ops = append(ops, o) // repeated call
 			}
+			if r.Chance(1, 40) { // Close anywhere, the history goes on
+				ops = append(ops, sigOp{K: sigClose, PC: r.Intn(2), Ref: -1})
+			}
 		}
 	}
 	if len(ops) > maxLen {
@@ -244,6 +253,11 @@ func sigGenHistory(r *Rand, maxLen int, muts []int, single bool) sigCase {
 		for i := range ops {
 			ops[i].PC = 0
 		}
+	}
+	if len(muts) > 0 && r.Chance(1, 12) && len(ops) > 1 {
+		// a PeerConnection whose ICE agent cannot be created (C03: Gather /
+		// AddRemoteCandidate after the transition); its create calls are refused
+		ops[0] = sigOp{K: sigDeclare, PC: r.Intn(2), Ref: -1, Mut: traitNoAgent}
 	}
 	c.Ops = ops
 	return c
@@ -265,6 +279,17 @@ func c01Corpus() []sigCase {
 		{Ops: []sigOp{{K: sigSetLocal, Ty: tyOffer, Ref: -1}, {K: sigSetLocal, Ty: 0, Ref: -1},
 			{K: sigCreateOffer, PC: 1}, {K: sigSetRemote, Ty: 5, Ref: 2}, {K: sigSetRemote, Ty: tyAnswer, Ref: 2},
 			{K: sigClose}, {K: sigSetRemote, Ty: tyOffer, Ref: 2}, {K: sigCreateOffer}}},
+		// Close in the middle of an exchange, on each side, then every kind of call
+		{Ops: []sigOp{{K: sigCreateOffer}, {K: sigSetLocal, Ty: tyOffer, Ref: 0}, {K: sigSetRemote, PC: 1, Ty: tyOffer, Ref: 0},
+			{K: sigClose, PC: 1}, {K: sigCreateAnswer, PC: 1}, {K: sigSetLocal, PC: 1, Ty: tyAnswer, Ref: -1},
+			{K: sigSetRemote, PC: 1, Ty: tyOffer, Ref: 0}, {K: sigClose, PC: 1},
+			{K: sigClose, PC: 0}, {K: sigSetRemote, PC: 0, Ty: tyAnswer, Ref: 0}, {K: sigCreateOffer, PC: 0},
+			{K: sigSetLocal, PC: 0, Ty: tyRollback, Ref: -1}}},
+		// CreateOffer refused inside SDP generation ("excessive retries in CreateOffer"): in
+		// have-remote-offer, the remote audio section matched a transceiver that CreateAnswer
+		// has not yet given a mid the local description carries; the signaling state and the
+		// descriptions stay, the exchange completes afterwards
+		{Cfg: [2]int{2, 1}, Ops: c01RetriesWitness()},
 	}
 }
 
@@ -303,3 +328,6 @@ func init() {
 		Run: c01HistRun, Coq: sigCoq, Shrink: sigShrink,
 	})
 }
+
+// placeholder until a witness is recorded
+var c01RetriesOps = []sigOp{{K: sigCreateOffer}}
